@@ -91,11 +91,20 @@ def scan_forbidden():
     """Forbidden declarations anywhere in the development. Section variables are permitted
     only inside `Section`s; files listed in SECTION_OK may use Variable/Hypothesis."""
     bad = []
+    # the development proper = the files of _CoqProject (only those can be compiled by make and
+    # hence be depended upon); scratch files of proofs in progress are not part of it
+    listed = set()
+    for line in open(os.path.join(COQ, "_CoqProject")):
+        line = line.strip()
+        if line.endswith(".v"):
+            listed.add(os.path.normpath(os.path.join(COQ, line)))
     for d, _, files in os.walk(COQ):
         for f in files:
             if not f.endswith(".v"):
                 continue
             path = os.path.join(d, f)
+            if os.path.normpath(path) not in listed:
+                continue
             txt = strip_comments(open(path).read())
             in_section = 0
             for ln, line in enumerate(txt.split("\n"), 1):
